@@ -10,8 +10,8 @@
    set - never a silent truncation.
    Raw accumulation curves of FIRST moments of non-negative rewards are non-decreasing: proved for the translated
    _accumulate on any demography with generator rate matrices (C10_source_first_moment_curve_nondecreasing at the end of this
-   file; analysis/SourceMonotone.v).  Not proved: the same for raw moments of order >= 2 (checked on the implementation by the
-   accumulation stream). *)
+   file; analysis/SourceMonotone.v).  The same for raw moments of EVERY order k:
+   C10_source_moment_curve_nondecreasing (analysis/SourceMonotoneK.v). *)
 From Coq Require Import QArith List.
 From PG Require Import base.Perm model.Loop proofs.LoopProofs model.Search proofs.SearchProofs.
 Import ListNotations.
@@ -163,3 +163,20 @@ Theorem C10_source_cdf_redundant_change_point :
     = TreeHeightDistribution_cdf OpsR expm (length Slast) (all_epochs Ss Slast) alpha e ts.
 Proof. exact: source_cdf_redundant_change_point. Qed.
 Print Assumptions C10_source_cdf_redundant_change_point.
+
+(* raw accumulation curves of ANY order of non-negative rewards never decrease (translated _accumulate, any demography) *)
+From PG Require Import analysis.SourceMonotoneK.
+Theorem C10_source_moment_curve_nondecreasing :
+  forall (expm : seq (seq R) -> seq (seq R)),
+    (forall n A, wf n n A -> wf n n (expm A) /\ mx_of n n (expm A) = mexp (mx_of n n A)) ->
+  forall (regf : seq (seq R) -> R) (n k : nat) (Ss : seq (Q * seq (seq R))) (Slast : seq (seq R))
+         (alpha : seq R) (Rs : seq (seq R)) (t1 t2 : Q),
+    regf (List.hd (None, Slast) (all_epochs Ss Slast)).2 <> 0%R ->
+    List.Forall (fun x : Q * seq (seq R) => is_generator n x.2) Ss -> is_generator n Slast ->
+    (forall j, (j < n)%N -> Rle R0 (nth 0%R alpha j)) ->
+    (forall i, (i < k)%N -> size (nth [::] Rs i) = n) -> (forall i j, Rle R0 (nth 0%R (nth [::] Rs i) j)) ->
+    epochs_wf (seq (seq R)) 0%QQ Ss -> (0 <= t1)%QQ -> (t1 <= t2)%QQ ->
+    Rle (nth 0%R (PhaseTypeDistribution_accumulate OpsR expm regf (length Slast) k (all_epochs Ss Slast) Rs alpha [:: t1]) 0%N)
+        (nth 0%R (PhaseTypeDistribution_accumulate OpsR expm regf (length Slast) k (all_epochs Ss Slast) Rs alpha [:: t2]) 0%N).
+Proof. exact: source_moment_monotone. Qed.
+Print Assumptions C10_source_moment_curve_nondecreasing.
